@@ -76,6 +76,8 @@ def gen_cfg(rng, force_net=None, thorough=False):
     cfg = dict(n_agents=n_agents, rand_seed=rng.randint(0, 9999), dt=dt, start=2000, dur=round(dt * nsteps, 9))
     pool = ['random', 'mf', 'msm', 'embedding', 'erdos', 'disk', 'static', 'null', 'maternal', 'prepost']
     names = [force_net] if force_net else rng.sample(pool, rng.choice([1, 1, 2]))
+    if 'maternal' in names and 'prepost' in names:
+        names.remove('maternal')   # starsim accepts only one prenatal layer
     nets = []
     for nm in names:
         if nm == 'random':
